@@ -976,7 +976,9 @@ class Exec:
         f = self.resolve(callee)
         if f is None:
             raise Unsupported('call to function without MIR or model: ' + callee)
-        return self.run(f, args, depth + 1)
+        cm = re.search(r'::<([^<>]*)>$', callee)
+        consts = [int(x) for x in (cm.group(1).split(',') if cm else []) if x.strip().isdigit()]
+        return self.run(f, args, depth + 1, consts)
 
     def call_closure(self, cl, args):
         """cl: value whose type names a closure; args: list of argument values (already a tuple for Fn* shims)"""
@@ -990,11 +992,11 @@ class Exec:
         holder = {'c': cl}
         return self.run(f, [Ref(holder, 'c')] + list(args))
 
-    def run(self, f, args, depth=0):
+    def run(self, f, args, depth=0, consts=None):
         if depth > 80:
             raise Unsupported('call depth')
         self.encoded.add(f.name)
-        loc = {}
+        loc = {'$consts': consts or []}
         for (p, t), a in zip(f.params, args):
             loc[p] = a
         bb = 'bb0'
@@ -1370,6 +1372,14 @@ class Exec:
             if rm and self._balanced(rm.group(1)):
                 v = self.operand(f, loc, rm.group(1))
                 return ListV('array', [clone_val(v) for _ in range(int(rm.group(2)))])
+            rm = re.match(r'^(.*); ([A-Z]\w*)$', inner)
+            if rm and self._balanced(rm.group(1)):
+                # [v; N] with a const generic parameter: its value comes from the caller's turbofish (`next_n::<2>`)
+                cs = loc.get('$consts') or []
+                if len(cs) != 1:
+                    raise Unsupported('array length is a const generic without a unique binding: ' + rv)
+                v = self.operand(f, loc, rm.group(1))
+                return ListV('array', [clone_val(v) for _ in range(cs[0])])
             return ListV('array', [self.operand(f, loc, x) for x in split_top(inner)])
         return self.aggregate(f, loc, rv, dst)
 
